@@ -7,11 +7,24 @@ CLAIMED = {
         technique="contract-based deductive verification (Verus loop invariants + lemmas on the function extracted mechanically from /repo)",
         design="DESIGN.md section 5, C03"),
     "C04": dict(
-        text="Deductive proof (Verus) over the real text of size_bytes / append_* cut from /repo on every run: the reported size is the sum of declared sizes, inline assembly defaults to 3 bytes.",
-        note="vstd specs of Vec and slice iterators; declared size == encoded size is the asm() half (U-asm).",
+        text="Deductive proof (Verus) over the real text of size_bytes / append_* / asm() / check_branches cut from /repo on every run: the reported size is the sum of declared sizes, inline assembly defaults to 3 bytes, and for every mnemonic, operand form, variable attribute combination and offset asm() declares the byte count of the 6502 encoding an assembler selects for the operand text it emits.",
+        note="6502 mode/length table (A-isa) is the oracle; a symbol is in page zero iff declared Zeropage (A-zp); asm()'s caller obligations (caller_legal) are assumed; vstd specs; std::fmt `{}` (A-fmt).",
         technique="contract-based deductive verification (Verus, functions extracted mechanically from /repo)",
         design="DESIGN.md section 5, C04"),
 }
+
+CLAIMED.update({
+    "C13": dict(
+        text="Deductive proof (Verus): asm() emits an instruction only in an addressing mode the 6502 has for that mnemonic (mode derived from the emitted operand text), errors emit nothing; check_branches defines each fresh .fixN label exactly once after its reference.",
+        note="Partial: label uniqueness from the generator's counters, goto labels and inline-assembly symbols are not under contract. asm()'s caller obligations (spec fn caller_legal: what asm does not itself reject) are preconditions, not proved at call sites. A-isa, A-zp, A-fmt, vstd.",
+        technique="contract-based deductive verification (Verus, functions extracted mechanically from /repo)",
+        design="DESIGN.md section 5, C13"),
+    "C17": dict(
+        text="Deductive proof (Verus) on asm(): for every mnemonic and every variable memory class the address offset equals the port the access must use (superchip read port +0x80, 3E write port +0x400, 3E+ write port +0x200, ordinary memory +0), in the Absolute, X-indexed and Y-indexed arms; read-modify-write on split-port memory is a recorded known finding.",
+        note="Partial: 'still computes what the source says' is C01. Callers' avoidance of INC/DEC (generate_plusplus) not yet under contract.",
+        technique="contract-based deductive verification (Verus assertions spliced after the offset computation of the real asm())",
+        design="DESIGN.md section 5, C17"),
+})
 
 NOT_APPLICABLE = {
     "C11": "no contract within reach: the property is about the comment/splice scanner in cpp::process (str::split*/byte slicing without vstd specifications), pest WHITESPACE/COMMENT rules (generated parser) and a relation between two whole compilations",
